@@ -221,6 +221,7 @@ def mon_c05(ctx, k, inp):
                 ctx.violation('fork-after-shutdown-request', 'child forked for %s after the shutdown/restart request was observed' % r['name'], inp)
             if r['kind'] == 'event' and r['name'] == 'SUPERVISOR_STATE_CHANGE_STOPPING':
                 nstopping += 1
+                requested = True      # the request has been observed: ordered stop starts right after this notification
             if r['kind'] == 'rpc-answer' and requested and r.get('method', '').split('.')[-1] in (
                     'startProcess', 'stopProcess', 'signalProcess', 'startAllProcesses', 'stopAllProcesses', 'restart', 'shutdown'):
                 if r.get('fault') != FAULT['SHUTDOWN_STATE'] and not r.get('deferred'):
